@@ -159,21 +159,73 @@ def require_untouched(system, snap, what):
 
 # ----------------------------------------------------------------------------- strategies for unit cells
 
-_coord = st.one_of(st.sampled_from(SPECIAL), gens.nice(0.0, 0.999, 4))
-_atoms5 = st.lists(st.lists(_coord, min_size=3, max_size=3), min_size=1, max_size=5)
-_types5 = st.lists(st.integers(1, 3), min_size=5, max_size=5)
-_vec5 = st.lists(st.lists(gens.nice(-5.0, 5.0, 3), min_size=3, max_size=3), min_size=5, max_size=5)
+# Generation cost matters (Hypothesis spends ~0.1-0.3 ms per primitive draw) and Hypothesis draws integers of
+# large ranges with a strong bias to small values, so a unit cell is decoded from lists of *small-range* integers
+# (uniform) plus one hash seed that spreads them into quasi-continuous values.
 _int10 = st.integers(0, 9)
-_orel_small = st.lists(gens.nice(-0.95, 0.95, 3), min_size=3, max_size=3)
-_orel_far = st.lists(st.one_of(gens.nice(-30.0, 30.0, 2), st.integers(-12, 12).map(float)), min_size=3, max_size=3)
+_byte = st.integers(0, 255)
+_hdr = st.lists(_byte, min_size=14, max_size=14)
+_coords = [None] + [st.lists(_byte, min_size=3 * n, max_size=3 * n) for n in range(1, 6)]
+NATOMS = (1, 2, 2, 3, 3, 3, 4, 4, 5, 5)
 _rot = gens.rotations(min_angle=1.0)
 _family = st.sampled_from(FAMILIES)
+_seed = st.integers(0, 10 ** 6)
 # distances from a face of the *re-oriented* cell, just inside / just outside each of the documented default
 # tolerances of rotate(tol=None) ("tol values ranging from 1e-4 to 1e-8"; the code tries 1e-4, 1e-5, 1e-6, 1e-7)
-_near_delta = st.tuples(st.sampled_from([1e-4, 1e-5, 1e-6, 1e-7]),
-                        st.sampled_from([0.5, 0.99, 1.005, 1.05, 2.0, 0.99, 1.005])).map(lambda t: t[0] * t[1])
-_near_side = st.booleans()
-_gen_coord = gens.nice(0.0, 0.999, 4)
+NEAR_T = (1e-4, 1e-5, 1e-6, 1e-7)
+NEAR_F = (0.5, 0.99, 1.005, 1.05, 2.0, 0.99, 1.005)
+_near = st.lists(st.integers(0, 2 * 3 * 4 * 7 - 1), min_size=1, max_size=2)
+
+
+def _jit(seed, i):
+    """deterministic pseudo-random number in [0,1) from (seed, i)"""
+    return ((seed * 2654435761 + (i + 1) * 40503 * 7919 + 12345) % 1000003) / 1000003.0
+
+
+def _u01(v, seed, i):
+    """byte v (uniform 0..255) + hash jitter -> quasi-continuous uniform number in [0,1)"""
+    return (v + _jit(seed, i)) / 256.0
+
+
+def _coord_of(v, seed, i):
+    """byte -> relative coordinate: half of the range gives generic 5-digit reals in [0, 0.999], the other half a
+    special value (0 twice as likely as each of 1/4, 1/3, 1/2, 2/3, 3/4)"""
+    if v < 128:
+        return round(0.999 * (v + _jit(seed, 100 + i)) / 128.0, 5)
+    return SPECIAL[(v - 128) % len(SPECIAL)]
+
+
+def _angle_of(u, bands):
+    """u in [0,1) -> angle (2 decimals) in one of two bands [(lo,hi),(lo,hi)]"""
+    (l1, h1), (l2, h2) = bands
+    w1, w2 = h1 - l1, h2 - l2
+    x = u * (w1 + w2)
+    return round(l1 + x, 2) if x <= w1 else round(l2 + (x - w1), 2)
+
+
+def _family_abc(fam, lat, ang):
+    """lattice parameters with generic, non-coincident values (same ranges as gens.family_params)"""
+    a = round(2.0 + 7.0 * lat[0], 3)
+    rb = round(1.15 + 0.45 * lat[1], 3)
+    rc = round(1.75 + 0.65 * lat[2], 3)
+    if fam == 'cubic':
+        return [a, a, a, 90.0, 90.0, 90.0]
+    if fam == 'tetragonal':
+        return [a, a, round(a * rb, 4), 90.0, 90.0, 90.0]
+    if fam == 'orthorhombic':
+        return [a, round(a * rb, 4), round(a * rc, 4), 90.0, 90.0, 90.0]
+    if fam == 'hexagonal':
+        return [a, a, round(a * rc, 4), 90.0, 90.0, 120.0]
+    if fam == 'rhombohedral':
+        al = _angle_of(ang[0], ((35.0, 85.0), (95.0, 115.0)))
+        return [a, a, a, al, al, al]
+    if fam == 'monoclinic':
+        be = _angle_of(ang[0], ((95.0, 135.0), (50.0, 85.0)))
+        return [a, round(a * rb, 4), round(a * rc, 4), 90.0, be, 90.0]
+    al, be, ga = (_angle_of(x, ((55.0, 85.0), (95.0, 125.0))) for x in ang)
+    if len({al, be, ga}) < 3 or not gens.realisable(al, be, ga, 0.05):
+        al, be, ga = 81.0, 104.0, 97.0
+    return [a, round(a * rb, 4), round(a * rc, 4), al, be, ga]
 
 
 @st.composite
@@ -181,18 +233,24 @@ def ucells(draw, family=None, far_origin=True, allow_lh=True, nearface=None, max
     """nearface: None, or an integer 3x3 matrix U: the atoms are then drawn in the relative coordinates s' of the
     cell U.vects with one or two coordinates each a tolerance-ladder distance from a face of *that* cell, and
     converted to the unit cell (s = frac(s'.U))"""
-    fp = draw(gens.family_params(family)) if family else draw(gens.family_params(draw(_family)))
-    atoms = draw(_atoms5)[:max_atoms]
+    hd = draw(_hdr)
+    sd = draw(_seed)
+    fam = family or FAMILIES[hd[13] % len(FAMILIES)]
+    d_origin, d_rot, d_lh, d_n = hd[9] % 10, hd[10] % 10, hd[11] % 10, hd[12] % 10
+    abc = _family_abc(fam, [_u01(hd[i], sd, i) for i in range(3)], [_u01(hd[3 + i], sd, 3 + i) for i in range(3)])
+    n = min(NATOMS[d_n], max_atoms)
+    cs = draw(_coords[n])
+    atoms = [[_coord_of(cs[3 * i + c], sd, 3 * i + c) for c in range(3)] for i in range(n)]
     nf = nearface is not None
     if nf:
         Um = np.array(nearface, dtype=float)
         new = []
         for a in atoms[:4]:
-            sp = [draw(_gen_coord) for _ in range(3)]
-            for _ in range(draw(st.integers(1, 2))):
-                k = draw(st.integers(0, 2))
-                d = draw(_near_delta)
-                sp[k] = 1.0 - d if draw(_near_side) else d
+            sp = [min(x, 0.999) for x in a]
+            for code in draw(_near):
+                k, side, t, f = code % 3, (code // 3) % 2, (code // 6) % 4, (code // 24) % 7
+                d = NEAR_T[t] * NEAR_F[f]
+                sp[k] = 1.0 - d if side else d
             so = np.array(sp) @ Um
             so = so - np.floor(so)
             so[so >= 1.0] = 0.0
@@ -200,18 +258,17 @@ def ucells(draw, family=None, far_origin=True, allow_lh=True, nearface=None, max
         atoms = new
     keep = dedupe(atoms, 1e-3 if nf else 0.04)
     atoms = [atoms[i] for i in keep]
-    types = draw(_types5)[:len(atoms)]
-    vec = draw(_vec5)[:len(atoms)]
+    types = [1 + int(3 * _jit(sd, 200 + i)) % 3 for i in range(len(atoms))]
+    vec = [[round(10.0 * _jit(sd, 300 + 3 * i + c) - 5.0, 3) for c in range(3)] for i in range(len(atoms))]
     orel = [0.0, 0.0, 0.0]
     if origin:
-        k = draw(_int10)
-        if k == 0 and far_origin:
-            orel = draw(_orel_far)
-        elif k <= 3:
-            orel = draw(_orel_small)
-    rot = draw(_rot) if draw(_int10) < 3 else None
-    lh = bool(allow_lh and draw(_int10) == 0)
-    u = {'family': fp['family'], 'abc': fp['abc'], 'rot': rot, 'lh': lh, 'orel': orel,
+        if d_origin == 9 and far_origin:
+            orel = [round(60.0 * _u01(hd[6 + i], sd, 6 + i) - 30.0, 0 if hd[6 + i] % 4 == 0 else 2) for i in range(3)]
+        elif d_origin >= 6:
+            orel = [round(1.9 * _u01(hd[6 + i], sd, 6 + i) - 0.95, 3) for i in range(3)]
+    rot = draw(_rot) if d_rot >= 7 else None
+    lh = bool(allow_lh and d_lh == 9)
+    u = {'family': fam, 'abc': abc, 'rot': rot, 'lh': lh, 'orel': orel,
          'atoms': atoms, 'types': types, 'vec': vec}
     if nf:
         u['nearface'] = True
@@ -220,20 +277,25 @@ def ucells(draw, family=None, far_origin=True, allow_lh=True, nearface=None, max
 
 # ----------------------------------------------------------------------------- shared result checks
 
-def equal_props(res, snap, tagdiv=1):
-    """tagdiv=k: tags are compared as tag//k (the k centering copies of one motif atom carry consecutive tags; a
+def unequal_props(res, snap, index, tagdiv=1):
+    """problems (strings) among matched pairs (result atom i, original atom index[i]); vectorised.
+    tagdiv=k: tags are compared as tag//k (the k centering copies of one motif atom carry consecutive tags; a
     primitive cell keeps one representative of them, so only the motif atom can be recovered from a round trip)"""
     rt, rg, rv = np.asarray(res.atoms.atype), np.asarray(res.atoms.tag), np.asarray(res.atoms.vec)
-
-    def eq(i, j):
-        if int(rt[i]) != int(snap['atype'][j]):
-            return 'atype %r != original %r' % (rt[i], snap['atype'][j])
-        if int(rg[i]) // tagdiv != int(snap['tag'][j]) // tagdiv:
-            return 'tag %r != original %r' % (rg[i], snap['tag'][j])
-        if not np.array_equal(rv[i], snap['vec'][j]):
-            return 'vec %r != original %r' % (rv[i].tolist(), snap['vec'][j].tolist())
-        return None
-    return eq
+    index = np.asarray(index)
+    ok = index >= 0
+    j = np.where(ok, index, 0)
+    bad_t = ok & (rt.astype(np.int64) != np.asarray(snap['atype']).astype(np.int64)[j])
+    bad_g = ok & (rg.astype(np.int64) // tagdiv != np.asarray(snap['tag']).astype(np.int64)[j] // tagdiv)
+    bad_v = ok & np.any(rv != np.asarray(snap['vec'])[j], axis=1)
+    out = []
+    for nm, bad, r, o in (('atype', bad_t, rt, snap['atype']), ('tag', bad_g, rg, snap['tag']), ('vec', bad_v, rv, snap['vec'])):
+        w = np.where(bad)[0]
+        if len(w):
+            i = int(w[0])
+            out.append('%d atoms carry a %s different from the original atom they map onto (e.g. atom #%d -> original #%d: %r != %r)'
+                       % (len(w), nm, i, int(index[i]), np.asarray(r[i]).tolist(), np.asarray(o[int(index[i])]).tolist()))
+    return out
 
 
 def require_props_present(res, what):
@@ -273,14 +335,15 @@ def map_back(motif, snap, res, T, o_old, mult, what, check_new_lattice=True, tag
     B = np.asarray(res.box.vects, dtype=float)
     bo = np.asarray(res.box.origin, dtype=float)
     pos = np.asarray(res.atoms.pos, dtype=float)
-    eq = equal_props(res, snap, tagdiv)
-    kw = dict(mult=mult, equal=eq)
+    kw = dict(mult=mult)
     if check_new_lattice:
         kw.update(newV=B, new_origin=bo, new_pos=pos)
     rep = cm.compare_crystal(motif, pos @ T, **kw)
+    rep.problems.extend(unequal_props(res, snap, rep.match.index, tagdiv))
     reading = 1
     if not rep.ok and (np.any(o_old != 0) or np.any(bo != 0)):
         rep2 = cm.compare_crystal(motif, (pos - bo) @ T + o_old, **kw)
+        rep2.problems.extend(unequal_props(res, snap, rep2.match.index, tagdiv))
         if rep2.ok:
             rep, reading = rep2, 2
     require(rep.ok, lambda: '%s: not the same crystal: %s' % (what, ' ; '.join(rep.problems)[:1500]))
@@ -294,22 +357,21 @@ def match_tol(*arrays):
 
 # ----------------------------------------------------------------------------- supersize
 
-_mult6 = st.integers(1, 6)
+KMAP = (2, 1, 3, 1, 2, 4, 5, 6)          # byte % 8 -> multiplier (Hypothesis over-produces the minimal draw: make it 2, not 1)
 _kind = st.sampled_from(['pos', 'pos', 'neg', 'two', 'two', 'tuple_pos', 'tuple_neg', 'np'])
-_big = st.integers(0, 10 ** 6)
 
 
 @st.composite
 def supersize_cases(draw):
     u = draw(ucells(far_origin=True))
-    ks = [draw(_mult6) for _ in range(3)]
+    ks = [KMAP[draw(_byte) % 8] for _ in range(3)]
     while ks[0] * ks[1] * ks[2] > 60:
         i = ks.index(max(ks))
         ks[i] -= 1
     sizes = []
     for k in ks:
         kind = draw(_kind)
-        r = draw(_big)
+        r = draw(_byte)
         if kind == 'pos':
             sizes.append({'f': 'int', 'v': k})
         elif kind == 'neg':
@@ -368,17 +430,9 @@ def oracle_supersize(case):
     tol = match_tol(expB, expo, o)
     motif = cm.Motif(V, o, pos0, tol)
     # absolute positions, no rotation
-    rep = cm.compare_crystal(motif, np.asarray(res.atoms.pos, dtype=float), mult=n, equal=equal_props(res, snap),
-                             newV=B, new_origin=bo)
+    rep = cm.compare_crystal(motif, np.asarray(res.atoms.pos, dtype=float), mult=n, newV=B, new_origin=bo)
+    rep.problems.extend(unequal_props(res, snap, rep.match.index))
     require(rep.ok, lambda: '%s: not the same crystal: %s' % (what, ' ; '.join(rep.problems)[:1500]))
-    # the replicas fill exactly the cells lo..hi-1 of each axis
-    sh = rep.match.shift
-    for ax in range(3):
-        got = sorted(set(sh[:, ax].tolist()))
-        # atoms sit at s+n with s in [0,1): shifts are the cell indices (rounding may move a face atom by one cell)
-        require(len(got) >= ks[ax] and min(got) >= los[ax] - 1 and max(got) <= los[ax] + ks[ax],
-                lambda: '%s: replicas along axis %d occupy cells %r, expected %d..%d' % (what, ax, got, los[ax], los[ax] + ks[ax] - 1))
-    require_untouched(sys0, snap, what)
     if n > 1:
         labels.add('replicated')
     neg = any(lo < 0 for lo in los)
@@ -443,7 +497,9 @@ def int_matrices(draw):
     if kind == 'signperm':
         return draw(_signperm)
     if kind == 'diag':
-        d = draw(_diag)
+        d = list(draw(_diag))
+        if abs(d[0] * d[1] * d[2]) > 24:
+            d[2] = 2 if d[2] > 0 else -2
         return [[d[0], 0, 0], [0, d[1], 0], [0, 0, d[2]]]
     src = _mat4 if kind == 'rand4' else _mat3
     for _ in range(6):
@@ -541,7 +597,6 @@ def oracle_rotate(case):
     tol = match_tol(W, o, bo, res.atoms.pos)
     motif = cm.Motif(V, o, pos0, tol)
     reading, rep = map_back(motif, snap, res, T, o, n, what)
-    require_untouched(sys0, snap, what)
     labels.add('reading%d' % reading)
     if det < 0:
         labels.add('detneg')
@@ -663,7 +718,6 @@ SETTING_FAMILIES = {
 }
 SETTINGS = ('p', 'a', 'b', 'c', 'i', 'f', 't1', 't2')
 _setting = st.sampled_from(SETTINGS + ('i', 'f', 't1', 't2'))
-_motif3 = st.lists(st.lists(_coord, min_size=3, max_size=3), min_size=1, max_size=3)
 
 
 @st.composite
@@ -756,7 +810,7 @@ def oracle_centering(case):
         what = "dump('conventional_to_primitive', setting=%r%s)" % (given, '' if basis else ', check_basis=False')
         out = _c2p(sys0, given, basis)
         if out is None:
-            require_untouched(sys0, snap, what)
+            require_untouched(sys0, snap, what)      # a refusal leaves its operand alone
             return labels | {'refusal'}
         p, T1 = out
         T1 = require_rotation(T1, what)
@@ -783,10 +837,8 @@ def oracle_centering(case):
         pt = np.asarray(p.atoms.atype)
         require(all(int(pt[m.index[j]]) == int(snap['atype'][j]) for j in range(N)),
                 lambda: '%s: a conventional atom maps onto a primitive atom of another type' % what)
-        require_untouched(sys0, snap, what)
         # and back
         what2 = what + " -> dump('primitive_to_conventional', setting=%r)" % setting
-        psnap = snapshot(p)
         c2, T2 = p.dump('primitive_to_conventional', setting=setting, return_transform=True)
         T2 = require_rotation(T2, what2)
         require(c2.natoms == N, lambda: '%s: %d atoms, the conventional cell had %d' % (what2, c2.natoms, N))
@@ -795,7 +847,6 @@ def oracle_centering(case):
         _same_params(Bc, V, what2)
         T21 = T2 @ T1
         map_back(cm.Motif(V, o, pos0, match_tol(V, o, Bc, c2.atoms.pos)), snap, c2, T21, o, 1, what2, tagdiv=k)
-        require_untouched(p, psnap, what2)
     else:
         what = "dump('primitive_to_conventional', setting=%r)" % setting
         c, T1 = sys0.dump('primitive_to_conventional', setting=setting, return_transform=True)
@@ -810,11 +861,9 @@ def oracle_centering(case):
         require(abs(dq - k) <= 1e-6, lambda: '%s: conventional cell has %.9g primitive volumes, expected %d' % (what, dq, k))
         motif = cm.Motif(V, o, pos0, match_tol(V, o, Bc, c.atoms.pos))
         map_back(motif, snap, c, T1, o, k, what)
-        require_untouched(sys0, snap, what)
         # and back
         extra = {} if not basis else {'check_family': False}
         what2 = what + " -> dump('conventional_to_primitive', setting=%r, %s)" % (given, 'check_family=False' if basis else 'check_basis=False')
-        csnap = snapshot(c)
         out = _c2p(c, given, basis, **extra)
         if out is None:
             return labels | {'refusal'}
@@ -825,23 +874,26 @@ def oracle_centering(case):
         Bp, bpo = require_lammps_inside(p2, what2)
         _same_params(Bp, V, what2)
         map_back(cm.Motif(V, o, pos0, match_tol(V, o, Bp, p2.atoms.pos)), snap, p2, T2 @ T1, o, 1, what2)
-        require_untouched(c, csnap, what2)
     if setting != 'p':
         labels.add('nt')
     return labels
 
 
 CLAUSES = [
-    Clause('supersize', oracle_supersize, supersize_cases, quick=4000, thorough=80000,
-           min_share={'nt': 0.3, 'onface': 0.3, 'two_sided': 0.15, 'arg_np': 0.1},
+    Clause('supersize', oracle_supersize, supersize_cases, quick=6000, thorough=120000,
+           min_share={'nt': 0.3, 'onface': 0.3, 'two_sided': 0.12, 'arg_np': 0.08, 'mults_distinct': 0.15, 'origin_small': 0.12,
+                      'multitype': 0.3},
            desc='supersize: count, box, origin, volume; every replica maps back onto one original atom with its type/tag/vector, each original N times, no coincidences'),
-    Clause('rotate', oracle_rotate, rotate_cases, quick=6000, thorough=120000,
-           min_share={'nt': 0.4, 'onface': 0.3, 'detneg': 0.2, 'hex4': 0.04, 'bigdet': 0.1},
+    Clause('rotate', oracle_rotate, rotate_cases, quick=12000, thorough=300000,
+           min_share={'nt': 0.4, 'onface': 0.3, 'detneg': 0.2, 'hex4': 0.05, 'bigdet': 0.2, 'nearface': 0.05,
+                      'origin_small': 0.12, 'lefthanded': 0.03, 'rigid_rot': 0.08, 'multitype': 0.3, 'form_float': 0.06},
            desc='rotate: proper rotation returned, box = T.(uvws.vects), LAMMPS form, atoms inside, count/volume x|det|, map-back through T with multiplicity |det|'),
-    Clause('refusal', oracle_refusal, refusal_cases, quick=1500, thorough=20000,
-           min_share={'nt': 0.9, 'coplanar': 0.1, 'nonint': 0.1},
+    Clause('refusal', oracle_refusal, refusal_cases, quick=2000, thorough=30000,
+           min_share={'nt': 0.9, 'coplanar': 0.08, 'nonint': 0.09, 'parallel': 0.05, 'shape': 0.05},
            desc='coplanar / parallel / non-integer / wrong-shape vector sets raise the documented ValueError and leave the system untouched'),
-    Clause('centering', oracle_centering, centering_cases, quick=2500, thorough=50000,
-           min_share={'nt': 0.4, 'c2p2c': 0.3, 'p2c2p': 0.15}, max_share={'refusal': 0.05},
+    Clause('centering', oracle_centering, centering_cases, quick=5000, thorough=100000,
+           min_share={'nt': 0.45, 'c2p2c': 0.3, 'p2c2p': 0.15, 'setting_t1': 0.07, 'setting_t2': 0.07, 'setting_f': 0.08,
+                      'nobasis': 0.12, 'multitype': 0.3},
+           max_share={'refusal': 0.05},
            desc='conventional<->primitive conversions for p,a,b,c,i,f,t1,t2: same crystal, primitive lattice = centred lattice, N/k atoms, and the two conversions undo one another'),
 ]
